@@ -28,6 +28,7 @@ func runC12(p *Prog, r *Report) {
 	c12R4(p, r, sites)
 	c12R5(p, r, sites)
 	c12R6(p, r, sites)
+	c12R7(p, r)
 }
 
 func relayLockStates(fc *FuncCtx) []LockState {
@@ -676,4 +677,85 @@ func c12R6(p *Prog, r *Report, sites []*relaySite) {
 // isAtomicPointerOp: fn is the named method of sync/atomic.Pointer[T].
 func isAtomicPointerOp(fn *types.Func, name string) bool {
 	return fn != nil && fn.Name() == name && strings.HasPrefix(fn.FullName(), "(*sync/atomic.Pointer[")
+}
+
+// c12R7: a packet variable filled by a two-value receive from a session queue is nil once the
+// receive reported the queue closed. On the paths that leave the not-ok edge nothing may use the
+// variable before it is given a new packet: the session is ending exactly then, and a log
+// statement or a release that goes through the nil packet panics the whole process.
+func c12R7(p *Prog, r *Report) {
+	const rule = "C12-R7"
+	r.Rule(rule, "no use of the packet variable after the queue closed: on every path from the not-ok edge of `pkt, ok = <-queue` (also as a select case), pkt is not used (dereferenced, passed on, released) until it is assigned again")
+	pkg := p.Pkg("service")
+	n := 0
+	p.AllFuncs(pkg, func(top *FuncCtx) {
+		for _, fc := range allCtxs(p, top) {
+			info := fc.Info()
+			// two-value receives from a session queue
+			type recv struct {
+				v      int
+				x, okO types.Object
+			}
+			var recvs []recv
+			for _, v := range fc.G.V {
+				as, isAs := v.Node.(*ast.AssignStmt)
+				if !isAs || len(as.Lhs) != 2 || len(as.Rhs) != 1 {
+					continue
+				}
+				u, isU := ast.Unparen(as.Rhs[0]).(*ast.UnaryExpr)
+				if !isU || u.Op != token.ARROW || !isSessChan(info, u.X) {
+					continue
+				}
+				x, okO := objOf(info, as.Lhs[0]), objOf(info, as.Lhs[1])
+				if x == nil || okO == nil {
+					continue
+				}
+				recvs = append(recvs, recv{v.ID, x, okO})
+			}
+			if len(recvs) == 0 {
+				continue
+			}
+			isRecv := map[int]types.Object{}
+			for _, rc := range recvs {
+				isRecv[rc.v] = rc.x
+			}
+			seen := map[types.Object]bool{}
+			for _, rc := range recvs {
+				if seen[rc.okO] {
+					continue
+				}
+				seen[rc.okO] = true
+				for _, e := range fc.TestEdges(func(e ast.Expr) bool { return objOf(info, e) == rc.okO }, WantFalse) {
+					// every definition of ok that reaches the test is a receive into the same packet variable
+					all := true
+					for _, d := range fc.ReachingDefs(e.From, rc.okO) {
+						if isRecv[d] != rc.x {
+							all = false
+						}
+					}
+					if !all {
+						continue
+					}
+					n++
+					defs := map[int]bool{}
+					for _, d := range fc.Defs(rc.x) {
+						defs[d] = true
+					}
+					bad, badPos := "", p.posStr(fc.G.V[e.From].Node.Pos())
+					if !defs[e.To] {
+						reach := fc.G.Reach([]int{e.To}, func(v *Vertex) bool { return defs[v.ID] }, nil)
+						for _, v := range fc.G.V {
+							if reach[v.ID] && v.Node != nil && usesObj(info, v.Node, rc.x, false) {
+								bad, badPos = exprStr(v.Node), p.posStr(v.Node.Pos())
+								break
+							}
+						}
+					}
+					r.Check(bad == "", rule, fmt.Sprintf("%s:%s-after-closed-queue@%s", fc.Name, rc.x.Name(), exprStr(fc.G.V[e.From].Node)), badPos, "the packet variable is not used after the queue reported closed", "after the queue is closed the packet variable is nil, and it is still used ("+bad+"): the uplink panics while its session is being torn down")
+				}
+			}
+		}
+	})
+	r.Count("closed_queue_edges", n)
+	r.Floor(rule, 6)
 }
